@@ -3,6 +3,7 @@ package props
 import (
 	"fmt"
 	"math/rand"
+	"os"
 	"strings"
 	"unicode/utf8"
 
@@ -113,6 +114,16 @@ func c15Compare(c *mon.Ctx, s string, origin string) {
 	}
 	if len(ref.Errors) > 0 || realAccept {
 		c.Distinct(s)
+	}
+	// the other entry points read the same language
+	if h := mon.Hash64(s); h%96 == 0 {
+		if which, diff := entryPoints(s, os.Getenv("VERIF_WORK"), h%(96*8) == 0); which != "" {
+			d := detail()
+			d["entry_point"], d["difference"] = which, diff
+			c.Violation("C15 entry-point-differs "+strings.Fields(strings.ReplaceAll(which, "(", " "))[0], "another entry point of the parser does not give what grammar.Parse gives for the same bytes", d)
+			return
+		}
+		c.Count("entry_points_compared")
 	}
 	if !realAccept {
 		// CreateEvaluator accepts precisely the same strings
@@ -426,7 +437,7 @@ func c15Run(c *mon.Ctx, idx int) {
 
 func init() {
 	req := func(tier string) []string {
-		l := []string{"accepted", "rejected", "option_bearing_calls_interleaved", "buffer_independence_checked", "trees_compared", "token_sequences", "derivations", "mutants", "long_flat_chains"}
+		l := []string{"accepted", "rejected", "option_bearing_calls_interleaved", "buffer_independence_checked", "trees_compared", "token_sequences", "derivations", "mutants", "long_flat_chains", "entry_points_compared"}
 		for _, a := range refparse.AllAlts {
 			l = append(l, "alt:"+a)
 		}
